@@ -64,6 +64,7 @@ def generate(prop, rng):
     fetch_fault = None
     if rng.random() < 0.35:
         fetch_fault = {"kind": rng.choice(["get_error", "remote_down"]), "nth": rng.randint(1, 4), "count": rng.randint(1, 2)}
+    cfg["dir_leftover"] = rng.randint(1, 9) if rng.random() < 0.2 else 0
     return {"prop": prop, "cfg": cfg, "contents": [gen.enc(b) for b in pool], "outs": outs,
             "push_fault": push_fault, "fetch_fault": fetch_fault}
 
@@ -354,9 +355,21 @@ def execute(sc, ctx):
     for c in caches:
         for o in list(listing(c, "local")):
             w.raw_rm(c, "local", o)
+    if cfg.get("dir_leftover"):
+        # an earlier fetch was killed in the reflink window of a directory object: an EMPTY unprotected file
+        # sits under its name in the cache (the remote has the real one and must stand in for it)
+        planted = False
+        for c in caches:
+            dirs = sorted(o for o in want_min["cache"][c] if o.endswith(".dir"))
+            if dirs:
+                w.raw_add(c, "local", dirs[cfg["dir_leftover"] % len(dirs)], b"", mode=0o644)
+                planted = True
+        if planted:
+            ctx.probe("empty_dir_object_leftover_in_cache")
     for rnd in (1, 2):
         idx = make_index()
-        before = {c: set(listing(c, "local")) for c in caches}
+        # (an empty file under a directory object's name is the planted leftover, not a delivered object)
+        before = {c: set(o for o, d_ in listing(c, "local").items() if not (o.endswith(".dir") and d_ == b"")) for c in caches}
         seam.faults = fault_rules(sc.get("fetch_fault"), "fetch") if rnd == 1 else []
         fired0 = sum(seam.fired.values())
         try:
